@@ -20,7 +20,8 @@ EXPLANATION = (
     "last filled Cache and only the elements after it; (e) cache_exists is False whenever recompute is set and "
     "drop_cache attempts to remove P on every path (a path may leave without it only after a test of the file "
     "itself found it absent -- not through cache_exists(), which pretends absence under recompute); without recompute, cache_exists "
-    "answers by tests for the file P itself only (a zero-length file is the complete store of an empty flow).  Trusts pickle round-trip equality and atomicity of rename within a directory.")
+    "answers by tests for the file P itself only (a zero-length file is the complete store of an empty flow).  Trusts pickle round-trip equality and atomicity of rename within a directory."    " Added after the eighth round of seeded changes and the second round of behaviour-preserving changes: cache_exists is evaluated as a boolean function of `recompute` and `the file is there` over every valuation a path allows and must equal `not recompute and there`."
+)
 RULES = {
     "C18-f": "CURRENT NAME: every file Cache opens, renames, removes or tests is named from self._filename in the same function",
     "C18-a": "PUBLISH: the final cache name appears only after the flow loop terminated normally",
